@@ -97,7 +97,7 @@ Proof. exact no_reference_unstamped. Qed.
    a local timestamp before any reference followed by a compressed record (known finding local_sets_reference;
    the model raises Q_LOCAL_SETS_REF), an explicit timestamp 0 followed by a compressed record (known finding
    ts_zero_no_reference; Q_TS_ZERO), and a compressed step wrapping the 32-bit reference to exactly 0 (the same
-   defect without a literal 0 on the wire; no tag) *)
+   defect without a literal 0 on the wire; the same tag) *)
 Theorem C12_local_first_refuted :
   stream_wf w_local_first = true /\ starts_with_file_id w_local_first = true /\
   (exists a b, spec_slots w_local_first = Some a /\ model_slots w_local_first = Some b) /\
@@ -113,7 +113,7 @@ Proof. exact decode_denote_ts_zero_refuted. Qed.
 Theorem C12_wrap_zero_refuted :
   stream_wf w_wrap_zero = true /\ starts_with_file_id w_wrap_zero = true /\
   (exists a b, spec_slots w_wrap_zero = Some a /\ model_slots w_wrap_zero = Some b) /\
-  agree w_wrap_zero = false /\ no_time_quirk w_wrap_zero = false /\ model_quirks w_wrap_zero = [].
+  agree w_wrap_zero = false /\ no_time_quirk w_wrap_zero = false /\ In Q_TS_ZERO (model_quirks w_wrap_zero).
 Proof. exact decode_denote_wrap_zero_refuted. Qed.
 
 (* the side condition is satisfiable by a stream with an explicit timestamp, a compressed record and a local
